@@ -7,6 +7,7 @@ mod exprparse;
 mod form;
 mod json;
 mod libg;
+mod models;
 mod net;
 mod rng;
 mod runner;
